@@ -397,10 +397,12 @@ func (e *Exec) contractCall(st *State, instr ssa.Instruction, fc *FuncContract, 
 			st.counts[strings.TrimPrefix(eff, "event:")]++
 		}
 	}
-	if st.counts["stable-dirty"] > 0 {
+	if st.counts["stable-dirty"] > 0 && strings.HasPrefix(name, "if:") {
+		// a primitive termination event: the facts it must imply have to hold already
 		st.counts["stable-dirty"] = 0
 		e.stableInvs(st, true, instr, "after@"+anchor)
 	} else {
+		st.counts["stable-dirty"] = 0
 		e.stableInvs(st, false, instr, "")
 	}
 	st.calls[shortName(name)] = callRecord{Args: args, Results: res}
